@@ -185,6 +185,20 @@ def run(prop, spec, tier, seed, scale, write_evidence):
             rr = vlib.run_case(pexe, f["file"], ["prop=C15+C17"])
             if rr["v"] in ("viol", "crash"):
                 viols.append(("%s prop=C15+C17 no_splice=%d" % (f["file"], mode), rr, "iv_fd_pump relay, splice %s" % ("unavailable" if mode else "available")))
+    # 3c. "the same under every available poll method": the guarantees of C01-C09 hold under each of them.  A method-specific slip
+    #     (say, only in the kernel-timer path of epoll-timerfd) needs more programs than the enumeration above can afford, so a
+    #     plain generated campaign (method drawn per case, generated EINTR/fallback settings) is judged by all loop oracles here
+    nloop = int((40000 if tier == "quick" else 800000) * scale) or 16
+    for li, (lprof, share) in enumerate((("all", 0.5), ("timer", 0.25), ("fd", 0.25))):
+        summ, fails, samp, broken = vlib.run_batch(exe, seed * 1000 + 800 + li, int(nloop * share), ["prop=" + ALLPROPS, "profile=" + lprof], outdir, label="meth%d" % li)
+        stats["runs"] += summ["evals"]; stats["method_campaign_runs"] = stats.get("method_campaign_runs", 0) + summ["evals"]
+        for m in range(4):
+            if summ["labels"][28 + m]:
+                triples.add(("campaign", lprof, "method %d" % m))
+        for f in fails[:3]:
+            rr = vlib.run_case(exe, f["file"], ["prop=" + ALLPROPS, "profile=" + lprof])
+            if rr["v"] in ("viol", "crash"):
+                viols.append(("%s prop=%s profile=%s" % (f["file"], ALLPROPS, lprof), rr, "generated campaign, poll method drawn per case (profile %s)" % lprof))
     # 4. report
     lines_out = []; nviol = 0; nknown = 0; seen = set()
     for line, r, name in viols:
@@ -209,7 +223,7 @@ def run(prop, spec, tier, seed, scale, write_evidence):
     wall = time.time() - t0
     ev = dict(property_id=prop, tier=tier, seed=seed, level="fault_enumeration",
               coverage=dict(evaluations=stats["runs"], distinct_nontrivial=len(triples),
-                            rule="programs = regression corpus + seeded generated loop programs of the C01-C09 profiles; for each program and each of the 4 poll methods a fault-free run records the number of wait-primitive calls made inside iv_main; then one run per k with EINTR injected at the k-th wait call (every k up to %d, sampled beyond), one run per optional-facility failure (epoll_create1 / epoll_create ENOSYS, epoll_pwait2 ENOSYS and EPERM from call 0/1/2/5/random, timerfd_create ENOSYS, ppoll ENOSYS from call k, eventfd2 EINVAL/ENOSYS, eventfd ENOSYS), and runs under generated IV_EXCLUDE_POLL_METHOD strings (subsets, orders, odd whitespace, unknown names; oracle = first non-excluded method, iv_fatal when all are excluded); every run is judged by all oracles of C01-C04, C06, C07, C09; iv_fd_pump relay sessions are run with the splice probe failing and succeeding under the C17 oracles; in addition the CONFLUENT variant of every program (each callback acts only on its own object, driven by choices derived from (case, object, invocation number)) is run fault-free, with EINTR at every k, and with the fallbacks that keep the timeout granularity, and the per-object callback summary must be identical; non-trivial = (program, method, fault) triple in which the fault was actually reached (observed at the system-call boundary)" % max_k,
+                            rule="programs = regression corpus + seeded generated loop programs of the C01-C09 profiles; for each program and each of the 4 poll methods a fault-free run records the number of wait-primitive calls made inside iv_main; then one run per k with EINTR injected at the k-th wait call (every k up to %d, sampled beyond), one run per optional-facility failure (epoll_create1 / epoll_create ENOSYS, epoll_pwait2 ENOSYS and EPERM from call 0/1/2/5/random, timerfd_create ENOSYS, ppoll ENOSYS from call k, eventfd2 EINVAL/ENOSYS, eventfd ENOSYS), and runs under generated IV_EXCLUDE_POLL_METHOD strings (subsets, orders, odd whitespace, unknown names; oracle = first non-excluded method, iv_fatal when all are excluded); every run is judged by all oracles of C01-C04, C06, C07, C09; iv_fd_pump relay sessions are run with the splice probe failing and succeeding under the C17 oracles; a plain generated campaign of loop programs (poll method, EINTR rate and fallback settings drawn per case) is judged by the same oracles, so that a guarantee broken under one method only is seen; in addition the CONFLUENT variant of every program (each callback acts only on its own object, driven by choices derived from (case, object, invocation number)) is run fault-free, with EINTR at every k, and with the fallbacks that keep the timeout granularity, and the per-object callback summary must be identical; non-trivial = (program, method, fault) triple in which the fault was actually reached (observed at the system-call boundary)" % max_k,
                             samples=samples, programs=len(progs), exhaustive=False, eintr_k_exhaustive_up_to=max_k, **stats,
                             violations_reported=nviol, known_findings_reported=nknown),
               assumptions=["faults are injected at the libc boundary with errno values the kernel really produces", "EINTR enumeration is exhaustive in k per program up to the stated bound; programs are sampled"],
